@@ -19,7 +19,9 @@ REGISTRY = {
     'C09': ['contracts.c09', ('contracts.gates', only('optimize_asm_contract(gate)')), ('contracts.c14', only('rebuild_optimized_asm_block'))],
     'C10': [('contracts.gates', only('fault-containment', 'compare_asm_block_asm_format', 'optimize_asm_block_asm_format(gate)')),
             'contracts.c10'],
-    'C11': [('contracts.gates', only('optimize_asm_from_log', 'optimize_asm_block_asm_format(gate)', 'compare_asm_block_asm_format')),
+    'C11': [('contracts.gates', only('optimize_asm_from_log', 'optimize_asm_block_asm_format(gate)', 'compare_asm_block_asm_format',
+                                     'optimize_asm_contract(gate)')),
+            ('contracts.c17', only('execute_gasol')),      # the replay run must see the same PUSH0 setting as the optimizing run
             'contracts.c11'],
     'C12': ['contracts.c12'],
     'C13': ['contracts.c13', ('contracts.c12', only('frame('))],     # process independence includes history independence
